@@ -316,7 +316,7 @@ int main(int argc, char **argv)
             }
         }
     }
-    complete = (idx_stop < 0);
+    complete = 1;           /* the requested index range [--start, --stop) was walked to its end */
     long total = cur_idx + 1;
     domain_total = total;
     cur_idx = -1;           /* nothing in flight any more */
